@@ -17,7 +17,7 @@ Not decided: what GridSearchCV selects.
 """
 import ast
 
-from .. import core
+from .. import astpat, core, normast
 from . import c17
 
 META = dict(level="other", trusted_base=["inspect.signature(...).return_annotation returns the annotated class", "sklearn GridSearchCV only sets parameters from param_grid"],
@@ -193,43 +193,91 @@ def run(ctx: core.Ctx) -> int:
     impl = core.need(core.find_func(fm, "_fit_model_impl"), "FitModelState._fit_model_impl")
     where = f"{F}:FitModelState._fit_model_impl"
     ib = impl.body
-    gi = next((i for i, s in enumerate(ib) if isinstance(s, ast.If) and ast.unparse(s.test).replace(" ", "") in ("n_samples<MIN_SAMPLES", "len(X)<MIN_SAMPLES")
-               and any(isinstance(x, ast.Raise) and "ModelFitError" in ast.unparse(x) for x in s.body)), None)
-    first_use = next((i for i, s in enumerate(ib) if any(isinstance(c, ast.Call) and ast.unparse(c.func) in ("train_test_split", "GridSearchCV", "grid_search.fit", "TimeSeriesSplit")
-                                                          for c in ast.walk(s))), None)
-    ns = [ast.unparse(s.value).replace(" ", "") for s in ib if isinstance(s, ast.Assign) and ast.unparse(s.targets[0]) == "n_samples"]
-    ms = [s.value.value for s in ib if isinstance(s, ast.Assign) and ast.unparse(s.targets[0]) == "MIN_SAMPLES" and isinstance(s.value, ast.Constant)]
-    okg = gi is not None and first_use is not None and gi < first_use and ns in (["len(X)"], ["len(self.data)"], []) and ms and ms[0] >= 2
-    ctx.oblige("FIT", where, "n_samples < MIN_SAMPLES -> raise ModelFitError before the split / grid search", bool(okg), file=F, func="FitModelState._fit_model_impl",
+    RA, R = astpat.resolver(impl)
+
+    def lt_form(t):
+        """test -> (A, B, k) meaning A < B + k, or None"""
+        if isinstance(t, ast.UnaryOp) and isinstance(t.op, ast.Not) and isinstance(t.operand, ast.Compare) and len(t.operand.ops) == 1:
+            c = t.operand
+            l, r = c.left, c.comparators[0]
+            return {ast.GtE: (l, r, 0), ast.Gt: (l, r, 1), ast.LtE: (r, l, 0), ast.Lt: (r, l, 1)}.get(type(c.ops[0]))
+        if isinstance(t, ast.Compare) and len(t.ops) == 1:
+            l, r = t.left, t.comparators[0]
+            return {ast.Lt: (l, r, 0), ast.LtE: (l, r, 1), ast.Gt: (r, l, 0), ast.GtE: (r, l, 1)}.get(type(t.ops[0]))
+        return None
+
+    def is_use(c):
+        if not isinstance(c, ast.Call):
+            return False
+        if R(c.func) in ("train_test_split", "GridSearchCV", "TimeSeriesSplit"):
+            return True
+        return isinstance(c.func, ast.Attribute) and c.func.attr == "fit" and R(c.func.value).startswith("GridSearchCV(")
+    first_use = next((i for i, s in enumerate(ib) if any(is_use(c) for c in ast.walk(s))), None)
+    if first_use is None:
+        ctx.error(f"{where}: no train_test_split / GridSearchCV / grid-search fit call found")
+    raises = [(i, s) for i, s in enumerate(ib[:first_use or 0]) if isinstance(s, ast.If) and any(isinstance(x, ast.Raise) and "ModelFitError" in ast.unparse(x) for x in s.body)]
+    okg, seen = False, []
+    for i, s in raises:
+        lf = lt_form(s.test)
+        if lf is None:
+            ctx.error(f"{where}: the refusal `if {ast.unparse(s.test)}: raise ModelFitError` is not a recognised size comparison")
+            continue
+        A, B, k = lf
+        try:
+            bound = ast.literal_eval(RA(B)) + k
+        except Exception:
+            ctx.error(f"{where}: the minimum sample count `{ast.unparse(B)}` is not a constant")
+            continue
+        seen.append(f"{R(A)} < {bound}")
+        if R(A) in ("len(self.data)",) and isinstance(bound, int) and bound >= 2:
+            okg = True
+    ctx.oblige("FIT", where, f"refusals before the split / grid search: {seen}", bool(okg), file=F, func="FitModelState._fit_model_impl",
                construct="min samples guard", msg="data sets too small to split are not refused before train_test_split / GridSearchCV")
-    gs = next((c for c in ast.walk(impl) if isinstance(c, ast.Call) and ast.unparse(c.func) == "GridSearchCV"), None)
-    kws = {k.arg: ast.unparse(k.value) for k in gs.keywords} if gs is not None else {}
-    ctx.oblige("FIT", where, f"GridSearchCV(param_grid={kws.get('param_grid')}, estimator={kws.get('estimator')})", kws.get("param_grid") == "self.parameter_space"
-               and kws.get("estimator") == "adapter", file=F, func="FitModelState._fit_model_impl", construct="grid dataflow",
-               msg=f"the grid search runs over {kws.get('param_grid')}, not the parameter space supplied to fit_model")
-    okbest = any(isinstance(s, ast.Assign) and ast.unparse(s.targets[0]) == "self.fit_estimator" and ast.unparse(s.value) == "grid_search.best_estimator_" for s in ib)
-    ctx.oblige("FIT", where, "fit_estimator = grid_search.best_estimator_", okbest, file=F, func="FitModelState._fit_model_impl", construct="best estimator",
+    gs = next((c for c in ast.walk(impl) if isinstance(c, ast.Call) and R(c.func) == "GridSearchCV"), None)
+    kws = {k.arg: R(k.value) for k in gs.keywords} if gs is not None else {}
+    ctx.oblige("FIT", where, f"GridSearchCV(param_grid={kws.get('param_grid')}, estimator={(kws.get('estimator') or '')[:50]})", kws.get("param_grid") == "self.parameter_space"
+               and (kws.get("estimator") or "").startswith("python.SklearnEKFAdapter.Create("), file=F, func="FitModelState._fit_model_impl", construct="grid dataflow",
+               msg=f"the grid search runs over {kws.get('param_grid')} with estimator {(kws.get('estimator') or '')[:60]}, not the parameter space supplied to fit_model "
+                   f"over the SklearnEKFAdapter")
+    okbest = gs is not None and any(isinstance(s, ast.Assign) and ast.unparse(s.targets[0]) == "self.fit_estimator" and R(s.value) == R(gs) + ".best_estimator_" for s in ib)
+    ctx.oblige("FIT", where, "fit_estimator = <the grid search>.best_estimator_", okbest, file=F, func="FitModelState._fit_model_impl", construct="best estimator",
                msg="the fitted estimator is not the grid search's best estimator")
     ex = core.find_func(fm, "export_python")
     okex = ex is not None and any(isinstance(r, ast.Return) and ast.unparse(r.value) == "self.fit_estimator.export_python()" for r in ast.walk(ex))
     ctx.oblige("FIT", f"{F}:FitModelState.export_python", "export_python delegates to the fitted estimator", okex, file=F, func="FitModelState.export_python",
                construct="export delegation", msg="export_python does not export the fitted estimator")
-    finit = core.find_func(fm, "__init__")
-    dflt = next((s for s in ast.walk(finit) if isinstance(s, ast.For) and "required_keys" in ast.unparse(s.iter)), None)
-    okd = False
-    if dflt is not None and len(dflt.body) == 1 and isinstance(dflt.body[0], ast.If):
-        t = ast.unparse(dflt.body[0].test).replace(" ", "")
-        okd = t == "keynotinself.parameter_spaceornotself.parameter_space[key]" and ast.unparse(dflt.body[0].body[0]).replace(" ", "") == "self.parameter_space[key]=[default]"
-    ps = any(isinstance(s, ast.Assign) and ast.unparse(s.targets[0]) == "self.parameter_space" and ast.unparse(s.value) == "parameter_space" for s in finit.body)
-    ctx.oblige("FIT", f"{F}:FitModelState.__init__", "parameter_space stored as given; defaults only for absent / empty keys", okd and ps, file=F, func="FitModelState.__init__",
+    finit = normast.Normaliser().function(core.need(core.find_func(fm, "__init__"), "FitModelState.__init__"))
+    _fa, FR = astpat.resolver(finit)
+    hits = astpat.find("""
+for _K_, _D_ in __E__.items():
+    if _K_ not in self.parameter_space or not self.parameter_space[_K_]:
+        self.parameter_space[_K_] = [_D_]
+""", finit)
+    stores = [n_ for n_ in ast.walk(finit) if isinstance(n_, ast.Subscript) and isinstance(n_.ctx, (ast.Store, ast.Del)) and ast.unparse(n_.value) == "self.parameter_space"]
+    muts = [c_ for c_ in ast.walk(finit) if isinstance(c_, ast.Call) and isinstance(c_.func, ast.Attribute) and ast.unparse(c_.func.value) == "self.parameter_space"
+            and c_.func.attr in ("update", "pop", "clear", "setdefault", "popitem")]
+    okd = len(hits) == 1 and len(stores) == 1 and not muts
+    ps = [ast.unparse(s.value) for s in ast.walk(finit) if isinstance(s, ast.Assign) and any(ast.unparse(t_) == "self.parameter_space" for t_ in s.targets)]
+    ctx.oblige("FIT", f"{F}:FitModelState.__init__", f"parameter_space stored as given ({ps}); defaults only for absent / empty keys ({len(hits)} default loop, "
+               f"{len(stores)} item store(s), {len(muts)} mutating call(s))", okd and ps == ["parameter_space"], file=F, func="FitModelState.__init__",
                construct="grid defaults", msg="the supplied grid is altered beyond adding defaults for absent / empty required keys")
     # ConfigView precedence
     cv = core.need(classes.get("ConfigView"), "ConfigView")
-    cvi = core.need(core.find_func(cv, "__init__"), "ConfigView.__init__")
-    txt = [ast.unparse(s).replace(" ", "") for s in cvi.body]
-    okcv = "self._params=params" in txt and any(t.startswith("forkey,valueindataclasses.asdict(default_config).items():") and "ifkeynotinself._params:" in t
-                                                  and "self._params[key]=value" in t for t in txt)
-    ctx.oblige("FIT", f"{F}:ConfigView.__init__", "given parameters override defaults (defaults fill only missing keys)", okcv, file=F, func="ConfigView.__init__",
+    cvi = normast.Normaliser().function(core.need(core.find_func(cv, "__init__"), "ConfigView.__init__"))
+    _ca, CR = astpat.resolver(cvi)
+    pname = [a_.arg for a_ in cvi.args.args][1] if len(cvi.args.args) > 1 else None
+    given = [ast.unparse(s.value) for s in ast.walk(cvi) if isinstance(s, ast.Assign) and any(ast.unparse(t_) == "self._params" for t_ in s.targets)]
+    hits = astpat.find("""
+for _K_, _V_ in dataclasses.asdict(__D__).items():
+    if _K_ not in self._params:
+        self._params[_K_] = _V_
+""", cvi)
+    cstores = [n_ for n_ in ast.walk(cvi) if isinstance(n_, ast.Subscript) and isinstance(n_.ctx, (ast.Store, ast.Del)) and ast.unparse(n_.value) == "self._params"]
+    cmuts = [c_ for c_ in ast.walk(cvi) if isinstance(c_, ast.Call) and isinstance(c_.func, ast.Attribute) and ast.unparse(c_.func.value) == "self._params"
+             and c_.func.attr in ("update", "pop", "clear", "setdefault", "popitem")]
+    okcv = given == [pname] and len(hits) == 1 and CR(hits[0][0]["__D__"]) == "python.Config()" and len(cstores) == 1 and not cmuts
+    ctx.oblige("FIT", f"{F}:ConfigView.__init__", f"given parameters override defaults (defaults fill only missing keys): _params = {given}, {len(hits)} default loop, "
+               f"{len(cstores)} item store(s)", okcv, file=F, func="ConfigView.__init__",
                construct="ConfigView precedence", msg="ConfigView lets library defaults override the hyper-parameters it is given")
     props = {m.name for m in cv.body if isinstance(m, ast.FunctionDef) and any(ast.unparse(d) == "property" for d in m.decorator_list)}
     bad = [m.name for m in cv.body if isinstance(m, ast.FunctionDef) and m.name in props and
